@@ -203,7 +203,11 @@ def _cdf_layer(p):
   layer = CL.CDF(num_keypoints=p['nk'], units=p['units'], activation=p['activation'], reduction=p['reduction'],
                  input_scaling_type=p.get('scaling', 'learned_per_input'), sparsity_factor=p.get('sparsity', 1),
                  input_scaling_monotonicity=p.get('scaling_mono', 'increasing'))
-  layer.build(tf.TensorShape([None, p['dim']]))
+  if p.get('via_config'):
+    # the layer a saved / cloned model holds: re-created from its own config (which carries canonical values)
+    layer = CL.CDF.from_config(layer.get_config())
+  # CDF.build does not mark the layer as built, so the first call would create fresh variables: call it once here
+  layer(tf.zeros([1, p['dim']]))
   return layer
 
 
@@ -448,6 +452,11 @@ def cases(tier, seed):
       add('case_cdf_fn', dim=2, nk=2, units=1, activation=act, reduction=red, required=red != 'geometric_mean')
   add('case_cdf_layer', dim=4, nk=2, units=2, activation='relu6', reduction='mean', sparsity=2, scaling='learned_shared')
   add('case_cdf_layer', dim=2, nk=3, units=1, activation='sigmoid', reduction='mean', scaling='fixed')
+  # the documented integer spelling of the scaling monotonicity, and layers re-created from their config
+  add('case_cdf_layer', dim=2, nk=2, units=1, activation='relu6', reduction='mean', scaling_mono=1)
+  add('case_cdf_layer', dim=2, nk=2, units=2, activation='sigmoid', reduction='none', scaling='learned_shared', scaling_mono=1)
+  add('case_cdf_layer', dim=2, nk=2, units=1, activation='relu6', reduction='mean', via_config=True)
+  add('case_cdf_layer', dim=2, nk=2, units=2, activation='sigmoid', reduction='mean', scaling='learned_shared', via_config=True)
   add('case_cdf_fn', dim=4, nk=2, units=2, activation='relu6', reduction='mean', sparsity=2, scaling_shape='per_fn')
   add('case_cdf_fn', dim=2, nk=2, units=2, activation='sigmoid', reduction='none', scaling_shape='full', exp_mult=0.5)
   add('case_cdf_fn', dim=3, nk=2, units=1, activation='relu6', reduction='mean', scaling_shape=None)
